@@ -188,11 +188,11 @@ macro_rules! harness {
                 let mut taken = Vec::new();
                 let mut shadow: H = LinearizabilityTester::new($init);
                 let mut shadow_ok = true;
-                let mut outstanding: BTreeMap<Id, i64> = BTreeMap::new();
+                let mut outstanding: BTreeMap<Id, BTreeSet<u64>> = BTreeMap::new();
                 let mut ids_used: BTreeSet<(Id, u64)> = BTreeSet::new();
                 let is_client = |i: Id| usize::from(i) >= ns;
                 // the client-visible requests sent in a step: new Put/Get envelopes from clients
-                let mut note_sends = |before: &[(Id, Id, M)], after: &[(Id, Id, M)], shadow: &mut H, shadow_ok: &mut bool, v: &mut Vec<Violation>, outstanding: &mut BTreeMap<Id, i64>, ids_used: &mut BTreeSet<(Id, u64)>| {
+                let mut note_sends = |before: &[(Id, Id, M)], after: &[(Id, Id, M)], shadow: &mut H, shadow_ok: &mut bool, v: &mut Vec<Violation>, outstanding: &mut BTreeMap<Id, BTreeSet<u64>>, ids_used: &mut BTreeSet<(Id, u64)>| {
                     let mut pool: Vec<(Id, Id, M)> = before.to_vec();
                     for e in after {
                         if let Some(p) = pool.iter().position(|x| x == e) {
@@ -210,10 +210,11 @@ macro_rules! harness {
                         if !ids_used.insert((e.0, rid)) {
                             v.push(Violation::new("C18", "id-reuse", format!("client {:?} reuses request id {}", e.0, rid)));
                         }
-                        let n = outstanding.entry(e.0).or_insert(0);
-                        *n += 1;
-                        if *n > 1 {
-                            v.push(Violation::new("C18", "two-outstanding", format!("client {:?} sends {:?} while another operation is outstanding", e.0, e.2)));
+                        // outstanding = sent and its own reply (same request id) not yet accepted
+                        let set = outstanding.entry(e.0).or_default();
+                        set.insert(rid);
+                        if set.len() > 1 {
+                            v.push(Violation::new("C18", "two-outstanding", format!("client {:?} sends {:?} while its requests {:?} are all unanswered", e.0, e.2, set)));
                         }
                         if shadow.on_invoke(e.0, op).is_err() {
                             *shadow_ok = false;
@@ -285,11 +286,17 @@ macro_rules! harness {
                                 $Msg::GetOk(_, val) => Some($readok(*val)),
                                 other => fail_ret(other),
                             };
+                            let reply_id = match msg {
+                                $Msg::PutOk(i) | $Msg::GetOk(i, _) => Some(*i),
+                                other => fail_id(other),
+                            };
                             if let Some(ret) = ret {
                                 let changed = format!("{:?}", st.actor_states[usize::from(*dst)]) != format!("{:?}", nx.actor_states[usize::from(*dst)]);
                                 if changed {
                                     c.inc("replies_accepted");
-                                    *outstanding.entry(*dst).or_insert(0) -= 1;
+                                    if let Some(i) = reply_id {
+                                        outstanding.entry(*dst).or_default().remove(&i);
+                                    }
                                     if shadow.on_return(*dst, ret).is_err() {
                                         shadow_ok = false;
                                     }
@@ -303,7 +310,7 @@ macro_rules! harness {
                         ActorModelAction::Drop(_) => c.inc("fault_message_dropped"),
                         ActorModelAction::Crash(i) => {
                             c.inc("fault_actor_crashed");
-                            if is_client(*i) && outstanding.get(i).cloned().unwrap_or(0) > 0 {
+                            if is_client(*i) && outstanding.get(i).map(|s| !s.is_empty()).unwrap_or(false) {
                                 c.inc("probe_client_crashed_with_operation_in_flight");
                             }
                         }
@@ -332,6 +339,9 @@ mod reg_fail {
     pub fn fail_ret<I>(_m: &RegisterMsg<u64, char, I>) -> Option<RegisterRet<char>> {
         None
     }
+    pub fn fail_id<I>(_m: &RegisterMsg<u64, char, I>) -> Option<u64> {
+        None
+    }
 }
 mod wo_fail {
     use stateright::actor::write_once_register::WORegisterMsg;
@@ -345,13 +355,19 @@ mod wo_fail {
             _ => None,
         }
     }
+    pub fn fail_id<I>(m: &WORegisterMsg<u64, char, I>) -> Option<u64> {
+        match m {
+            WORegisterMsg::PutFail(i) => Some(*i),
+            _ => None,
+        }
+    }
 }
 
 pub mod plain {
-    pub use super::reg_fail::{fail_ret, put_fail_impl};
+    pub use super::reg_fail::{fail_id, fail_ret, put_fail_impl};
 }
 pub mod wo {
-    pub use super::wo_fail::{fail_ret, put_fail_impl};
+    pub use super::wo_fail::{fail_id, fail_ret, put_fail_impl};
 }
 
 mod inst_reg {
